@@ -35,7 +35,7 @@
      mean_em33               MEAN with ifm_scale / ofm_scale in [2^-33, 2^-32): ValueError negative shift count *)
 EXTENDS Integers, Sequences, FiniteSets, TLC, Json, IOUtils
 
-IncludePendingTriage == FALSE
+IncludePendingTriage == TRUE
 
 Tier == IF "CORNER_TIER" \in DOMAIN IOEnv THEN IOEnv.CORNER_TIER ELSE "quick"
 SeedS == IF "CORNER_SEED" \in DOMAIN IOEnv THEN IOEnv.CORNER_SEED ELSE "0"
